@@ -260,4 +260,35 @@ Theorem commit_keyspend_only : forall ik,
   = TOk (mkSI leaf hash key okey parity ik (fst (tweak ik None)) (snd (tweak ik None)) []).
 Proof. reflexivity. Qed.
 
+(* ---- to_tap_tree gives the described tree back; address / script_pubkey are those of the
+        tweaked key ---- *)
+Theorem to_tap_tree_ok : forall dl t, tree_of_depths leaf dl = Some t -> height t <= 128 ->
+  exists ns, nodes_from_tap_tree leaf hash leafH branchH dl = TOk ns /\
+             to_tap_tree leaf hash ns = TOk (Some t).
+Proof.
+  intros dl t H Hh. apply tree_of_depths_sound in H. subst dl.
+  exists (layout (root t) t). split; [apply nodes_from_depths_of_tree|].
+  unfold to_tap_tree. rewrite layout_hd. rewrite <- layout_hd.
+  rewrite (leaves_iter_layout t Hh). cbn [tbind].
+  rewrite items_depths, tree_of_depths_complete. reflexivity.
+Qed.
+
+Variables network address spk : Type.
+Variable addr_of : network -> okey -> address.
+Variable spk_of : okey -> spk.
+
+Theorem address_of_output_key : forall ik dl t n, tree_of_depths leaf dl = Some t ->
+  exists si,
+    from_tr leaf hash leafH branchH key okey parity tweak ik (Some dl) = TOk si /\
+    tr_address leaf hash key okey parity network address addr_of n si
+      = addr_of n (fst (tweak ik (Some (root t)))) /\
+    tr_script_pubkey leaf hash key okey parity spk spk_of si = spk_of (fst (tweak ik (Some (root t)))).
+Proof.
+  intros ik dl t n H. apply tree_of_depths_sound in H. subst dl.
+  unfold from_tr. rewrite nodes_from_depths_of_tree. cbn [tbind].
+  eexists. split; [reflexivity|].
+  unfold tr_address, tr_script_pubkey. cbn [si_okey].
+  rewrite layout_hd. cbn [merkle_root_of hd_error option_map n_sib]. split; reflexivity.
+Qed.
+
 End IterProofs.
